@@ -2,6 +2,7 @@ package props
 
 import (
 	"go/ast"
+	"go/constant"
 	"go/token"
 	"go/types"
 	"strings"
@@ -26,6 +27,8 @@ func init() {
 		Controls: []Control{
 			{Name: "default-arm-no-progress", File: f, Old: "\tdefault:\n\t\ts.next() // always make progress\n\t\tswitch ch {", New: "\tdefault:\n\t\tif ch != '@' {\n\t\t\ts.next() // always make progress\n\t\t}\n\t\tswitch ch {", Expect: "progress/Scanner.Scan"},
 			{Name: "rewind-without-clearing-flag", File: f, Old: "\t\t\t\ts.rdOffset = s.offset + 1\n\t\t\t\ts.insertSemi = false // newline consumed\n\t\t\t\treturn pos, s.tokSEMICOLON(), \"\\n\"\n\t\t\t}\n\t\t\tcomment := s.scanComment()\n\t\t\tif s.mode&ScanComments == 0 {\n\t\t\t\t// skip comment\n\t\t\t\ts.insertSemi = false // newline consumed\n\t\t\t\tgoto scanAgain\n\t\t\t}\n\t\t\ttok = token.COMMENT\n\t\t\tlit = comment\n\t\tcase '/':", New: "\t\t\t\ts.rdOffset = s.offset + 1\n\t\t\t\treturn pos, s.tokSEMICOLON(), \"\\n\"\n\t\t\t}\n\t\t\tcomment := s.scanComment()\n\t\t\tif s.mode&ScanComments == 0 {\n\t\t\t\t// skip comment\n\t\t\t\ts.insertSemi = false // newline consumed\n\t\t\t\tgoto scanAgain\n\t\t\t}\n\t\t\ttok = token.COMMENT\n\t\t\tlit = comment\n\t\tcase '/':", Expect: "progress/Scanner.Scan"},
+			{Name: "hash-rewind-wrong-char", File: f, Old: "\t\t\t\ts.ch = '#'\n", New: "\t\t\t\ts.ch = '/'\n", Expect: "rewind-consistency/Scanner.Scan:'/'"},
+			{Name: "number-dispatch-wider", File: f, Old: "\tcase isDecimal(ch) || ch == '.' && isDecimal(rune(s.peek())):", New: "\tcase isDigit(ch) || ch == '.' && isDecimal(rune(s.peek())):", Expect: "progress/Scanner.Scan"},
 			{Name: "string-literal-drops-quote", File: f, Old: "\t// '\"' opening already consumed\n\toffs := s.offset - 1\n", New: "\t// '\"' opening already consumed\n\toffs := s.offset\n", Expect: "literal-slice/Scanner.scanString"},
 			{Name: "identifier-start-after-next", File: f, Old: "func (s *Scanner) scanIdentifier() string {\n\toffs := s.offset\n", New: "func (s *Scanner) scanIdentifier() string {\n\ts.next()\n\toffs := s.offset\n", Expect: "literal-slice/Scanner.scanIdentifier"},
 			{Name: "unit-not-cut-from-number", File: f, Old: "lit := string(s.src[offs : s.offset-len(s.unitVal)])", New: "lit := string(s.src[offs:s.offset])", Expect: "unit-tiling/Scanner.scanNumber"},
@@ -147,6 +150,19 @@ func runC15(c *core.Check) {
 			if o != nil && cs.must(o, 0) {
 				st |= bProgress
 			}
+			// a helper that assigns s.offset rewinds (or repositions) the scanner just as an inline assignment does
+			if fn, ok := o.(*types.Func); ok && fn.Pkg() == pk.Types && fn != nextM {
+				if hd := core.FindFuncDecl(pk, core.FuncObjName(fn)); hd != nil && hd != scan {
+					wOff, wClr := helperWrites(info, hd, fOffset, fInsert)
+					if wOff {
+						st |= bRewound
+						st &^= bProgress
+						if wClr {
+							st |= bSemiCleared
+						}
+					}
+				}
+			}
 			// guarded consumers: these consume at least one character when the predicate of the enclosing
 			// case holds for the current character (their own consuming loop/branch tests the same predicate)
 			if o != nil {
@@ -210,6 +226,101 @@ func runC15(c *core.Check) {
 		}
 	}
 	c.Decide(!bad.IsValid() && len(res.Exits) > 0, "progress", "Scanner.Scan", bad, "every return path consumed input, emitted-and-cleared the pending unit, or is a guarded rewind that clears insertSemi", why)
+
+	// ---------- (1b) every rewind leaves the scanner state consistent: s.ch is the character at the rewound offset
+	fCh, fRd := fieldVar(scannerT, "ch"), fieldVar(scannerT, "rdOffset")
+	nRewind := 0
+	for _, fd := range core.AllFuncDecls(pk) {
+		if fd.Body == nil || fd.Recv == nil {
+			continue
+		}
+		name := core.FuncName(fd)
+		if name == "Scanner.next" || name == "Scanner.Init" || name == "Scanner.InitEx" {
+			continue // the only routines that legitimately position the scanner
+		}
+		par := parentMap(fd)
+		ast.Inspect(fd.Body, func(n ast.Node) bool {
+			if ds, ok := n.(*ast.DeferStmt); ok && isRestoreDefer(info, ds, fOffset) {
+				c.Ok("rewind-consistency", name+":deferred-restore", ds.Pos(), "look-ahead: a deferred closure puts the scanner back at the offset it was entered with (s.offset-1, re-consumed by s.next())")
+				return false
+			}
+			as, ok := n.(*ast.AssignStmt)
+			if !ok {
+				return true
+			}
+			for _, l := range as.Lhs {
+				if !fieldIs(l, fOffset) {
+					continue
+				}
+				nRewind++
+				key := name
+				// the sibling assignments of the same block
+				blk, _ := par[as].(*ast.BlockStmt)
+				var chConst *int64
+				rdOK := false
+				if blk != nil {
+					for _, st := range blk.List {
+						a2, ok := st.(*ast.AssignStmt)
+						if !ok || len(a2.Lhs) != 1 || len(a2.Rhs) != 1 {
+							continue
+						}
+						if fieldIs(a2.Lhs[0], fCh) {
+							if tv := info.Types[a2.Rhs[0]]; tv.Value != nil {
+								if v, ok := constant.Int64Val(constant.ToInt(tv.Value)); ok {
+									chConst = &v
+								}
+							}
+						}
+						if fieldIs(a2.Lhs[0], fRd) {
+							if be, ok := ast.Unparen(a2.Rhs[0]).(*ast.BinaryExpr); ok && be.Op == token.ADD && fieldIs(be.X, fOffset) {
+								if tv := info.Types[be.Y]; tv.Value != nil && tv.Value.String() == "1" {
+									rdOK = true
+								}
+							}
+						}
+					}
+				}
+				if chConst == nil || !rdOK || *chConst >= 0x80 {
+					c.Bad("rewind-consistency", key, as.Pos(), "the read position is reset without resetting s.ch to a one-byte character constant and s.rdOffset to s.offset+1 in the same block: the scanner's current character no longer is the byte at its offset, so the next token's text is not the source text")
+					continue
+				}
+				// the character the scanner is positioned on: the label of the enclosing `case 'c':` at the rewind
+				// site (in Scan) or at every call site of the helper
+				var sites []ast.Node
+				if fd == scan {
+					sites = []ast.Node{as}
+				} else {
+					obj := info.Defs[fd.Name]
+					ast.Inspect(scan.Body, func(m ast.Node) bool {
+						if call, ok := m.(*ast.CallExpr); ok && calleeObj(info, call) == obj {
+							sites = append(sites, call)
+						}
+						return true
+					})
+					if len(sites) == 0 {
+						c.Undecided("rewind-consistency", key, as.Pos(), "a routine other than next/Init assigns s.offset and is not called from Scan: cannot relate s.ch to the byte at the new offset")
+						continue
+					}
+				}
+				for _, site := range sites {
+					lbl, ok := enclosingCharCase(info, scanPar, site)
+					k2 := key + ":" + core.Sprintf("%q", rune(*chConst))
+					if fd != scan {
+						k2 = key + "@" + core.Sprintf("%q", lbl)
+					}
+					if !ok {
+						c.Undecided("rewind-consistency", k2, site.Pos(), "the rewind is not inside a single-character case of Scan's switch over ch")
+						continue
+					}
+					c.Decide(lbl == rune(*chConst), "rewind-consistency", k2, site.Pos(), core.Sprintf("s.ch = %q inside case %q", rune(*chConst), lbl),
+						core.Sprintf("after rewinding to the start of the token in `case %q`, s.ch is set to %q: the scanner now believes it stands on %q while its offset points at %q — the next Scan returns a token whose text is not the source text at its position", lbl, rune(*chConst), rune(*chConst), lbl))
+				}
+			}
+			return true
+		})
+	}
+	c.Analysed("rewind_sites", nRewind)
+	c.Floor("rewind-consistency", 2)
 
 	// ---------- (2) literal slices
 	c.Floor("literal-slice", 6)
@@ -402,25 +513,44 @@ var c15Guarded = map[string]string{
 	"scanNumber":     "isDecimal", // digits()/next() on a decimal digit or on '.' followed by one
 }
 
-// guardedBy: the call sits in a case clause (of an expression-less switch) whose expression calls pred.
+// guardedBy: the call sits in a case clause (of an expression-less switch) every disjunct of whose expressions
+// establishes pred for the current character: `pred(ch)` itself, or `ch == 'c' && pred(rune(s.peek()))` (the
+// consumer then consumes c). A disjunct that tests a wider predicate (isDigit for a consumer that loops on
+// isDecimal) dispatches characters the consumer does not consume.
 func guardedBy(par map[ast.Node]ast.Node, call *ast.CallExpr, pred string) bool {
+	var disjunct func(e ast.Expr) bool
+	isPredCall := func(e ast.Expr) bool {
+		c2, ok := ast.Unparen(e).(*ast.CallExpr)
+		if !ok || len(c2.Args) != 1 {
+			return false
+		}
+		id, ok := c2.Fun.(*ast.Ident)
+		return ok && id.Name == pred
+	}
+	disjunct = func(e ast.Expr) bool {
+		e = ast.Unparen(e)
+		if be, ok := e.(*ast.BinaryExpr); ok {
+			switch be.Op {
+			case token.LOR:
+				return disjunct(be.X) && disjunct(be.Y)
+			case token.LAND:
+				// a conjunction establishes pred when one side is a char test and the other the predicate
+				return isPredCall(be.X) || isPredCall(be.Y)
+			}
+		}
+		return isPredCall(e)
+	}
 	for p := par[call]; p != nil; p = par[p] {
 		if cc, ok := p.(*ast.CaseClause); ok {
+			if len(cc.List) == 0 {
+				return false
+			}
 			for _, e := range cc.List {
-				found := false
-				ast.Inspect(e, func(n ast.Node) bool {
-					if c2, ok := n.(*ast.CallExpr); ok {
-						if id, ok := c2.Fun.(*ast.Ident); ok && id.Name == pred {
-							found = true
-						}
-					}
-					return true
-				})
-				if found {
-					return true
+				if !disjunct(e) {
+					return false
 				}
 			}
-			return false
+			return true
 		}
 	}
 	return false
@@ -481,4 +611,96 @@ func consumesUnder(pk *packages.Package, cs *consumeSummary, obj types.Object, p
 	}
 	visit(fd, 0)
 	return ok
+}
+
+// helperWrites: does the routine assign s.offset, and does it set s.insertSemi = false?
+func helperWrites(info *types.Info, fd *ast.FuncDecl, fOffset, fInsert *types.Var) (off, clr bool) {
+	is := func(e ast.Expr, f *types.Var) bool {
+		sel, ok := ast.Unparen(e).(*ast.SelectorExpr)
+		if !ok || f == nil {
+			return false
+		}
+		s := info.Selections[sel]
+		return s != nil && s.Obj() == f
+	}
+	ast.Inspect(fd.Body, func(n ast.Node) bool {
+		if ds, ok := n.(*ast.DeferStmt); ok && isRestoreDefer(info, ds, fOffset) {
+			return false
+		}
+		if as, ok := n.(*ast.AssignStmt); ok {
+			for i, l := range as.Lhs {
+				if is(l, fOffset) {
+					off = true
+				}
+				if is(l, fInsert) && i < len(as.Rhs) {
+					if id, ok := ast.Unparen(as.Rhs[i]).(*ast.Ident); ok && id.Name == "false" {
+						clr = true
+					}
+				}
+			}
+		}
+		return true
+	})
+	return
+}
+
+// enclosingCharCase: the label of the innermost enclosing `case 'c':` clause with a single character constant.
+func enclosingCharCase(info *types.Info, par map[ast.Node]ast.Node, n ast.Node) (rune, bool) {
+	for p := par[n]; p != nil; p = par[p] {
+		if cc, ok := p.(*ast.CaseClause); ok && len(cc.List) == 1 {
+			if tv := info.Types[cc.List[0]]; tv.Value != nil && tv.Value.Kind() == constant.Int {
+				if v, ok := constant.Int64Val(tv.Value); ok {
+					return rune(v), true
+				}
+			}
+		}
+	}
+	return 0, false
+}
+
+// isRestoreDefer: `defer func(offs int) { …; s.offset = offs; s.rdOffset = offs + 1; s.next() }(s.offset - 1)` — the
+// look-ahead idiom: the position at entry (one before the current character, which the final s.next() re-consumes) is restored.
+func isRestoreDefer(info *types.Info, ds *ast.DeferStmt, fOffset *types.Var) bool {
+	lit, ok := ds.Call.Fun.(*ast.FuncLit)
+	if !ok || len(ds.Call.Args) != 1 || len(lit.Type.Params.List) != 1 || len(lit.Type.Params.List[0].Names) != 1 {
+		return false
+	}
+	be, ok := ast.Unparen(ds.Call.Args[0]).(*ast.BinaryExpr)
+	if !ok || be.Op != token.SUB {
+		return false
+	}
+	sel, ok := ast.Unparen(be.X).(*ast.SelectorExpr)
+	if !ok || info.Selections[sel] == nil || info.Selections[sel].Obj() != fOffset {
+		return false
+	}
+	if tv := info.Types[be.Y]; tv.Value == nil || tv.Value.String() != "1" {
+		return false
+	}
+	param := info.Defs[lit.Type.Params.List[0].Names[0]]
+	n := len(lit.Body.List)
+	if n < 2 {
+		return false
+	}
+	// last statement: s.next()
+	es, ok := lit.Body.List[n-1].(*ast.ExprStmt)
+	if !ok {
+		return false
+	}
+	call, ok := es.X.(*ast.CallExpr)
+	if !ok {
+		return false
+	}
+	if fsel, ok := call.Fun.(*ast.SelectorExpr); !ok || fsel.Sel.Name != "next" {
+		return false
+	}
+	// s.offset = param
+	found := false
+	for _, st := range lit.Body.List {
+		if as, ok := st.(*ast.AssignStmt); ok && len(as.Lhs) == 1 && len(as.Rhs) == 1 {
+			if l, ok := as.Lhs[0].(*ast.SelectorExpr); ok && info.Selections[l] != nil && info.Selections[l].Obj() == fOffset && identObj(info, as.Rhs[0]) == param {
+				found = true
+			}
+		}
+	}
+	return found
 }
